@@ -189,8 +189,6 @@ package geom
 //@   trusted
 //@ func MultiLineString.Simplify
 //@   trusted
-//@ func Polygon.Simplify
-//@   trusted
 //@ func LineString.TransformXY
 //@   trusted
 //@ func MultiLineString.TransformXY
@@ -311,6 +309,7 @@ package geom
 //@   trusted
 //@ func Polygon.Validate
 //@   trusted
+//@   defines result == ufn(pvalid, error, p)
 //@ func MultiPolygon.checkMultiPolygonConstraints
 //@   trusted
 //@ func validatePolyNotInsidePoly
@@ -318,8 +317,6 @@ package geom
 //@ func MultiPoint.asXYs
 //@   trusted
 //@ func MultiPoint.TransformXY
-//@   trusted
-//@ func MultiPolygon.Simplify
 //@   trusted
 //@ func MultiPoint.PointOnSurface
 //@   trusted
